@@ -582,105 +582,7 @@ pub proof fn lemma_wf_doc_inhabited()
 }
 
 // ---- what the accessors see in that tree ------------------------------------------------------------------------------
-pub open spec fn all_nodes(ts: Seq<Tree>) -> bool { forall|i: int| 0 <= i < ts.len() ==> (#[trigger] ts[i]) is Node }
-pub open spec fn all_toks(ts: Seq<Tree>) -> bool { forall|i: int| 0 <= i < ts.len() ==> (#[trigger] ts[i]) is Tok }
-
-pub proof fn lemma_child_nodes_add(a: Seq<Tree>, b: Seq<Tree>)
-    ensures rowan::child_nodes(a + b) == rowan::child_nodes(a) + rowan::child_nodes(b)
-    decreases b.len()
-{
-    if b.len() == 0 {
-        assert(a + b =~= a);
-        assert(rowan::child_nodes(a) + rowan::child_nodes(b) =~= rowan::child_nodes(a));
-    } else {
-        lemma_child_nodes_add(a, b.drop_last());
-        assert((a + b).drop_last() =~= a + b.drop_last());
-        assert((a + b).last() == b.last());
-        assert(rowan::child_nodes(a + b) =~= rowan::child_nodes(a) + rowan::child_nodes(b));
-    }
-}
-pub proof fn lemma_child_toks_add(a: Seq<Tree>, b: Seq<Tree>)
-    ensures child_toks(a + b) == child_toks(a) + child_toks(b)
-    decreases b.len()
-{
-    if b.len() == 0 {
-        assert(a + b =~= a);
-        assert(child_toks(a) + child_toks(b) =~= child_toks(a));
-    } else {
-        lemma_child_toks_add(a, b.drop_last());
-        assert((a + b).drop_last() =~= a + b.drop_last());
-        assert((a + b).last() == b.last());
-        assert(child_toks(a + b) =~= child_toks(a) + child_toks(b));
-    }
-}
-pub proof fn lemma_kind_filter_add(a: Seq<Tree>, b: Seq<Tree>, k: SyntaxKind)
-    ensures kind_filter(a + b, k) == kind_filter(a, k) + kind_filter(b, k)
-    decreases b.len()
-{
-    if b.len() == 0 {
-        assert(a + b =~= a);
-        assert(kind_filter(a, k) + kind_filter(b, k) =~= kind_filter(a, k));
-    } else {
-        lemma_kind_filter_add(a, b.drop_last(), k);
-        assert((a + b).drop_last() =~= a + b.drop_last());
-        assert((a + b).last() == b.last());
-        assert(kind_filter(a + b, k) =~= kind_filter(a, k) + kind_filter(b, k));
-    }
-}
-pub proof fn lemma_child_nodes_of_nodes(ts: Seq<Tree>)
-    requires all_nodes(ts)
-    ensures rowan::child_nodes(ts) == ts, child_toks(ts) == Seq::<Tree>::empty()
-    decreases ts.len()
-{
-    if ts.len() > 0 {
-        assert forall|i: int| 0 <= i < ts.drop_last().len() implies (#[trigger] ts.drop_last()[i]) is Node by { assert(ts.drop_last()[i] == ts[i]); }
-        lemma_child_nodes_of_nodes(ts.drop_last());
-        assert(ts.last() is Node);
-        assert(rowan::child_nodes(ts) =~= ts);
-    } else {
-        assert(rowan::child_nodes(ts) =~= ts);
-    }
-}
-pub proof fn lemma_child_nodes_of_toks(ts: Seq<Tree>)
-    requires all_toks(ts)
-    ensures rowan::child_nodes(ts) == Seq::<Tree>::empty(), child_toks(ts) == ts
-    decreases ts.len()
-{
-    if ts.len() > 0 {
-        assert forall|i: int| 0 <= i < ts.drop_last().len() implies (#[trigger] ts.drop_last()[i]) is Tok by { assert(ts.drop_last()[i] == ts[i]); }
-        lemma_child_nodes_of_toks(ts.drop_last());
-        assert(ts.last() is Tok);
-        assert(child_toks(ts) =~= ts);
-    } else {
-        assert(child_toks(ts) =~= ts);
-    }
-}
-/// filtering by a kind none / all of the elements have
-pub proof fn lemma_kind_filter_none(ts: Seq<Tree>, k: SyntaxKind)
-    requires forall|i: int| 0 <= i < ts.len() ==> rowan::tree_kind(#[trigger] ts[i]) != k
-    ensures kind_filter(ts, k) == Seq::<Tree>::empty()
-    decreases ts.len()
-{
-    if ts.len() > 0 {
-        assert forall|i: int| 0 <= i < ts.drop_last().len() implies rowan::tree_kind(#[trigger] ts.drop_last()[i]) != k by { assert(ts.drop_last()[i] == ts[i]); }
-        lemma_kind_filter_none(ts.drop_last(), k);
-        assert(rowan::tree_kind(ts.last()) != k);
-    }
-}
-pub proof fn lemma_kind_filter_all(ts: Seq<Tree>, k: SyntaxKind)
-    requires forall|i: int| 0 <= i < ts.len() ==> rowan::tree_kind(#[trigger] ts[i]) == k
-    ensures kind_filter(ts, k) == ts
-    decreases ts.len()
-{
-    if ts.len() > 0 {
-        assert forall|i: int| 0 <= i < ts.drop_last().len() implies rowan::tree_kind(#[trigger] ts.drop_last()[i]) == k by { assert(ts.drop_last()[i] == ts[i]); }
-        lemma_kind_filter_all(ts.drop_last(), k);
-        assert(rowan::tree_kind(ts.last()) == k);
-        assert(kind_filter(ts, k) =~= ts);
-    } else {
-        assert(kind_filter(ts, k) =~= ts);
-    }
-}
+// (generic tree lemmas: content_spec.rs)
 
 // ---- an entry ----
 pub proof fn lemma_conts_values(ks: Seq<ContM>)
@@ -703,33 +605,6 @@ pub proof fn lemma_conts_values(ks: Seq<ContM>)
             =~= seq![k.text] + texts(kind_filter(leaves(conts_toks(ks.skip(1))), VALUE)));
         assert(cont_texts(ks) =~= seq![k.text] + cont_texts(ks.skip(1)));
     }
-}
-/// kind_filter on a three-element list whose middle element only is a VALUE
-pub proof fn lemma_kind3(a: Tree, b: Tree, c: Tree)
-    requires rowan::tree_kind(a) != VALUE, rowan::tree_kind(b) == VALUE, rowan::tree_kind(c) != VALUE
-    ensures kind_filter(seq![a, b, c], VALUE) == seq![b]
-{
-    let s3 = seq![a, b, c];
-    let s2 = s3.drop_last();
-    let s1 = s2.drop_last();
-    let s0 = s1.drop_last();
-    assert(s0 =~= Seq::<Tree>::empty());
-    assert(kind_filter(s0, VALUE) =~= Seq::<Tree>::empty());
-    assert(s1.last() == a);
-    assert(kind_filter(s1, VALUE) =~= Seq::<Tree>::empty());
-    assert(s2.last() == b);
-    assert(kind_filter(s2, VALUE) =~= seq![b]);
-    assert(s3.last() == c);
-    assert(kind_filter(s3, VALUE) =~= seq![b]);
-}
-pub proof fn lemma_kind_filter_single(a: Tree, k: SyntaxKind)
-    ensures kind_filter(seq![a], k) == if rowan::tree_kind(a) == k { seq![a] } else { Seq::<Tree>::empty() }
-{
-    let s = seq![a];
-    assert(s.drop_last() =~= Seq::<Tree>::empty());
-    assert(kind_filter(s.drop_last(), k) =~= Seq::<Tree>::empty());
-    assert(s.last() == a);
-    if rowan::tree_kind(a) == k { assert(kind_filter(s, k) =~= seq![a]); } else { assert(kind_filter(s, k) =~= Seq::<Tree>::empty()); }
 }
 pub proof fn lemma_entry_tree(f: FieldM)
     ensures
@@ -867,58 +742,6 @@ pub proof fn lemma_doc_tree(d: DocM)
     assert(t_paragraphs(doc_tree(d)) =~= para_trees(d.paras));
     assert forall|i: int| 0 <= i < d.paras.len() implies t_items(#[trigger] para_trees(d.paras)[i]) == para_content(d.paras[i]) by { lemma_para_tree(d.paras[i]); }
     assert(t_content(doc_tree(d)) =~= doc_content(d));
-}
-
-// ---- lookups against the list model ----------------------------------------------------------------------------------
-pub proof fn lemma_entries_items_front(es: Seq<Tree>)
-    requires es.len() > 0
-    ensures entries_items(es) == (if t_key(es[0]) is Some { seq![(t_key(es[0])->Some_0, t_value(es[0]))] } else { Seq::<Pair>::empty() }) + entries_items(es.skip(1))
-    decreases es.len()
-{
-    let h = if t_key(es[0]) is Some { seq![(t_key(es[0])->Some_0, t_value(es[0]))] } else { Seq::<Pair>::empty() };
-    if es.len() == 1 {
-        assert(es.drop_last() =~= Seq::<Tree>::empty());
-        assert(es.skip(1) =~= Seq::<Tree>::empty());
-        assert(es.last() == es[0]);
-        assert(entries_items(es) =~= h + entries_items(es.skip(1)));
-    } else {
-        lemma_entries_items_front(es.drop_last());
-        assert(es.drop_last().skip(1) =~= es.skip(1).drop_last());
-        assert(es.skip(1).last() == es.last());
-        assert(es.drop_last()[0] == es[0]);
-        assert(entries_items(es) =~= h + entries_items(es.skip(1)));
-    }
-}
-/// "the first field of that name": the lookup by name is list_get on the (name, value) list
-pub proof fn lemma_entries_get_is_list_get(es: Seq<Tree>, key: Seq<char>)
-    ensures entries_get(es, key) == list_get(entries_items(es), key)
-    decreases es.len()
-{
-    if es.len() == 0 {
-        assert(entries_items(es) =~= Seq::<Pair>::empty());
-    } else {
-        lemma_entries_get_is_list_get(es.skip(1), key);
-        lemma_entries_items_front(es);
-        let l = entries_items(es);
-        let r = entries_items(es.skip(1));
-        if t_key(es[0]) is Some {
-            let h = (t_key(es[0])->Some_0, t_value(es[0]));
-            assert(l =~= seq![h] + r);
-            assert(l[0] == h);
-            assert(l.skip(1) =~= r);
-            lemma_first_idx(r, key);
-            if h.0 == key {
-                assert(first_idx(l, key) == 0);
-            } else {
-                let i = first_idx(r, key);
-                assert(first_idx(l, key) == if i < 0 { -1 } else { i + 1 });
-                if i >= 0 { assert(l[i + 1] == r[i]); }
-                assert(t_key(es[0]) != Some(key));
-            }
-        } else {
-            assert(l =~= r);
-        }
-    }
 }
 
 // ---- the theorem --------------------------------------------------------------------------------------------------------
